@@ -407,7 +407,9 @@ class Kernel(Module):
 
         # Recurse, if necessary
         for sub_module_name, sub_module in self.named_sub_kernels():
-            new_kernel.__setattr__(sub_module_name, sub_module.expand_batch(new_batch_shape))
+            # sub_module_name may be a nested name, e.g. "kernels.0" for the members of an Additive/ProductKernel
+            parent_name, _, attr_name = sub_module_name.rpartition(".")
+            new_kernel.get_submodule(parent_name).__setattr__(attr_name, sub_module.expand_batch(new_batch_shape))
 
         return new_kernel
 
@@ -602,7 +604,9 @@ class Kernel(Module):
             new_kernel.batch_shape = new_buffr.shape[:new_batch_shape_len]
 
         for sub_module_name, sub_module in self.named_sub_kernels():
-            new_kernel.__setattr__(sub_module_name, sub_module.__getitem__(index))
+            # sub_module_name may be a nested name, e.g. "kernels.0" for the members of an Additive/ProductKernel
+            parent_name, _, attr_name = sub_module_name.rpartition(".")
+            new_kernel.get_submodule(parent_name).__setattr__(attr_name, sub_module.__getitem__(index))
 
         return new_kernel
 
